@@ -160,7 +160,7 @@ def run_cases(lines, scratch, runner_bin=RUNNER_BIN, tag='s'):
     procs = []
     for i, p in enumerate(files):
         o = p.replace('.cases.', '.out.'); v = p.replace('.cases.', '.verdict.')
-        cmd = 'timeout 3000 %s < %s > %s 2> %s.err; timeout 3000 %s < %s > %s 2>> %s.err' % (runner_bin, p, o, o, DRIVER_BIN, o, v, o)
+        cmd = 'timeout 40000 %s < %s > %s 2> %s.err; timeout 40000 %s < %s > %s 2>> %s.err' % (runner_bin, p, o, o, DRIVER_BIN, o, v, o)
         procs.append((subprocess.Popen(cmd, shell=True), o, v))
     verdicts = []; summ = collections.Counter(); outs = []
     for pr, o, v in procs:
@@ -187,7 +187,7 @@ def run_cases_panic_only(lines, scratch, runner_bin, tag):
     for i in range(nsh):
         pth = os.path.join(scratch, '%s.cases.%d' % (tag, i)); o = pth.replace('.cases.', '.out.')
         with open(pth, 'w') as f: f.write('\n'.join(lines[i::nsh])); f.write('\n')
-        procs.append((subprocess.Popen('timeout 3000 %s < %s > %s 2> %s.err' % (runner_bin, pth, o, o), shell=True), pth, o))
+        procs.append((subprocess.Popen('timeout 40000 %s < %s > %s 2> %s.err' % (runner_bin, pth, o, o), shell=True), pth, o))
     verdicts = []; summ = collections.Counter(); outs = []
     for pr, pth, o in procs:
         rc = pr.wait(); outs.append(o)
